@@ -23,18 +23,34 @@ H_WellFormed == ~ev.herr /\ ev.k \in {"c07", "c07sig", "c08", "c12", "c12enc", "
 \* the signing view the code implements (same definition as in Codec.tla)
 SignedSym(s) == IF s \in {"x", "y"} THEN "FFFD-escape" ELSE s
 SignedPayload(p) == [i \in 1..Len(p) |-> SignedSym(p[i])]
-SignedView(e) == [payload |-> SignedPayload(e.payload), id |-> e.id, next |-> e.next, refs |-> e.refs, v |-> e.v,
-                  cid |-> e.cid, ct |-> e.ct]
+\* a link-sealing codec signs (and stores) a copy of the entry whose link lists have lost repeated members
+\* (cbor.go PreSign -> Entry.Copy -> uniqueCIDs); the first occurrences keep their order
+RECURSIVE Dedup(_)
+Dedup(s) == IF s = <<>> THEN <<>>
+            ELSE LET d == Dedup(SubSeq(s, 1, Len(s) - 1)) IN
+                 IF \E i \in 1..Len(d) : d[i] = s[Len(s)] THEN d ELSE Append(d, s[Len(s)])
+Links(s, sealed) == IF sealed THEN Dedup(s) ELSE s
+SignedView(e, sealed) ==
+  \* (the sealed links and their nonce are signed too, and the nonce is derived from the raw payload bytes: with a
+  \*  sealing codec and at least one link the invalid-UTF-8 collapse of the JSON text is not reachable)
+  [payload |-> IF sealed /\ (Links(e.next, sealed) # <<>> \/ Links(e.refs, sealed) # <<>>) THEN e.payload ELSE SignedPayload(e.payload),
+   id |-> e.id, next |-> Links(e.next, sealed), refs |-> Links(e.refs, sealed),
+   v |-> e.v, cid |-> e.cid, ct |-> e.ct]
+\* repeating a member changes neither the membership nor the order of a link list
+SameLinks(e, e2) == Dedup(e.next) = Dedup(e2.next) /\ Dedup(e.refs) = Dedup(e2.refs)
 
 \* ---- C07 ------------------------------------------------------------------
 \* the untouched entry verifies; with any signed part changed (or key / signature substituted) it does not
 C07_OriginalVerifies == ev.k \in {"c07", "c07sig"} => ev.orig_ok
-C07_TamperEvident    == ev.k = "c07" /\ ~ev.same => ~ev.mut_ok
+\* (under the plain codec every change of the lists, repeats included, must be detected; under a sealing codec the
+\*  lists exist only in the repeat-free form, so a pure repeat is not a change of a signed part)
+C07_TamperEvident    == ev.k = "c07" /\ ~ev.same /\ ~(ev.sealed /\ ev.ob.f \in {"next", "refs"} /\ SameLinks(ev.ob.e, ev.ob.e2))
+                           => ~ev.mut_ok
 C07_SignatureBound   == ev.k = "c07sig" => ~ev.mut_ok
 \* Layer M: the code accepts a modification exactly when its signing view (as modelled) does not change
 M_SigningView ==
   ev.k = "c07" /\ ~ev.same =>
-     (ev.mut_ok <=> (SignedView(ev.ob.e) = SignedView(ev.ob.e2) /\ ev.ob.e.key = ev.ob.e2.key))
+     (ev.mut_ok <=> (SignedView(ev.ob.e, ev.sealed) = SignedView(ev.ob.e2, ev.sealed) /\ ev.ob.e.key = ev.ob.e2.key))
 
 \* ---- C08 ------------------------------------------------------------------
 C08_RoundTrip     == ev.k = "c08" => ev.roundtrip /\ ev.verifyback
